@@ -55,6 +55,7 @@ type Ctx struct {
 	// Facts are ground facts (e.g. impl_I(tid_T)) added to a query when all their symbols occur in it.
 	Facts   []*Term
 	factKey map[string]bool
+	BaseTop map[string]*Term
 }
 
 // AddFact registers a ground fact once.
